@@ -524,7 +524,8 @@ func signature(h history, o obs) (string, string) {
 		if p.Op == "cancel" {
 			break
 		}
-		if p.Op == "use" && p.Via != "host" {
+		// (a released evaluation goes through its execution stage: an evaluation has completed)
+		if p.Op == "release" || (p.Op == "use" && p.Via != "host") {
 			between = true
 		}
 	}
